@@ -91,7 +91,7 @@ def _mk(ctx, dim, mode_no, tag=""):
 @contract(P, "Fourier/periodic-along-main-axes",
           params=[{"dim": 1, "mode_no": [2]}, {"dim": 1, "mode_no": [4]}, {"dim": 2, "mode_no": [2, 2]},
                   {"dim": 2, "mode_no": [4, 2]}, {"dim": 3, "mode_no": [2, 2, 2]}],
-          functions=FN, timeout=120, nsamples=2, search=20)
+          functions=FN, timeout=20, nsamples=2, search=20)
 def periodic(ctx, dim, mode_no):
     mod, s, per, srf = _mk(ctx, dim, mode_no)
     _periodic(ctx, srf, dim, per)
@@ -100,7 +100,7 @@ def periodic(ctx, dim, mode_no):
 @contract(P, "Fourier.update/periodic-for-new-settings",
           params=[{"dim": d, "what": w} for d in (1, 2) for w in ("period", "mode_no", "anis", "len_scale")
                   if not (d == 1 and w == "anis")],
-          functions=FN, timeout=120, nsamples=2, search=20)
+          functions=FN, timeout=20, nsamples=2, search=20)
 def periodic_after_update(ctx, dim, what):
     mod, s, per, srf = _mk(ctx, dim, [2] * dim)
     srf([[0.5, 1.5]] * dim, store=False)       # generate once with the old settings
